@@ -96,6 +96,39 @@ def op_table(rng, da):
     return ops
 
 
+def sibling_table(rng, da):
+    """name -> the same operation with OTHER auxiliary inputs of the same shape / dtype (another lambda, grid, labelling,
+    grouping, window, zone raster).  Two lazy results over one cube that differ only in such an input must not share
+    anything in the graph they are evaluated in."""
+    import xarray as xr
+
+    nt, ny, nx = da.sizes["time"], da.sizes["y"], da.sizes["x"]
+    sg2 = xr.DataArray(rng.uniform(-1, 2, (ny, nx)), dims=["y", "x"], coords={"y": da.y, "x": da.x})
+    lc2 = xr.DataArray(rng.choice([0.9, 0.1], (ny, nx)), dims=["y", "x"], coords={"y": da.y, "x": da.x})
+    zones2 = xr.DataArray(rng.integers(0, 3, (ny, nx)).astype("int16"), dims=["y", "x"], coords={"y": da.y, "x": da.x}, attrs={"nodata": -1})
+    srange2 = np.arange(-1.0, 2.0, 0.5) + 0.25
+    groups2 = [str(g) for g in (np.arange(nt) // 4)]
+    igroups2 = (np.arange(nt) // 4).astype("int16")
+    m = 10 * (nt - 1) + 1
+    template = np.zeros(m)
+    template[::10] = 1
+    labels2 = ((np.arange(m) + 3) // 7).astype(np.int32)
+    return {
+        "whits_s": lambda d: d.hdc.whit.whits(nodata=NODATA, s=1000.0),
+        "whits_sg_p": lambda d: d.hdc.whit.whits(nodata=NODATA, sg=sg2, p=0.8),
+        "whitsvc": lambda d: d.hdc.whit.whitsvc(nodata=NODATA, srange=srange2),
+        "whitsvc_p": lambda d: d.hdc.whit.whitsvc(nodata=NODATA, srange=srange2, p=0.8),
+        "whitsvc_lc": lambda d: d.hdc.whit.whitsvc(nodata=NODATA, lc=lc2, p=0.8),
+        "whitswcv": lambda d: d.hdc.whit.whitswcv(nodata=NODATA, srange=srange2),
+        "whitswcv_p": lambda d: d.hdc.whit.whitswcv(nodata=NODATA, srange=srange2, p=0.8, robust=False),
+        "whitint": lambda d: d.hdc.whit.whitint(labels2, template),
+        "spi_grouped": lambda d: d.hdc.algo.spi(groups=groups2),
+        "mean_grp": lambda d: d.hdc.algo.mean_grp(igroups2),
+        "rolling_sum": lambda d: d.hdc.rolling.sum(2),
+        "zonal_mean": lambda d: d.hdc.zonal.mean(zones2, [0, 1, 2], name="zm"),
+    }
+
+
 ORDERS = {"time_first": ("time", "y", "x"), "time_last": ("y", "x", "time"), "time_middle": ("y", "time", "x"),
           "time_first_xy": ("time", "x", "y"), "time_last_xy": ("x", "y", "time")}  # x before y: auxiliary rasters must be matched by name
 
@@ -178,6 +211,9 @@ def shard_sweep(spec, R):
     da = make_cube(rng, kind=spec.get("cube_dtype", "int16"))
     R.count(f"sweep_cube_{spec.get('cube_dtype', 'int16')}")
     ops = op_table(rng, da)
+    siblings = sibling_table(rng, da)
+    import xarray as xr
+    zones_for_joint = xr.DataArray(np.random.default_rng(5).integers(0, 3, (da.sizes["y"], da.sizes["x"])).astype("int16"), dims=["y", "x"], coords={"y": da.y, "x": da.x}, attrs={"nodata": -1})
     names = [n for n in ops if n in spec["ops"]]
     completion_orders = {}
     for name in names:
@@ -246,6 +282,25 @@ def shard_sweep(spec, R):
             if msg:
                 R.violation(f"C12:lazy-vs-eager:{name}", msg, case)
                 continue
+        # two lazy results over the same cube that differ only in an auxiliary input, evaluated in ONE graph
+        if name in siblings and da.dtype == np.int16:
+            g2 = siblings[name]
+            f1 = (lambda d: d.hdc.zonal.mean(zones_for_joint, [0, 1, 2], name="zm")) if name == "zonal_mean" else f
+            d1 = da.chunk({"time": -1, "y": 2, "x": -1})
+            try:
+                with warnings.catch_warnings():
+                    warnings.simplefilter("ignore")
+                    ea, eb = f1(da), g2(da)
+                    la, lb = f1(d1), g2(d1)
+                    ga, gb = dask.compute(la, lb, scheduler="synchronous")
+                R.count("joint_graph_pairs")
+                for tag, e_, g_ in (("first", ea, ga), ("second", eb, gb)):
+                    msg = equal_results(e_, g_, f"{name}: {tag} of two lazy results (different auxiliary input) computed in one graph")
+                    if msg:
+                        R.violation(f"C12:joint-graph:{name}", msg, {"op": name})
+                        break
+            except Exception as e:
+                R.violation(f"C12:lazy-raises:{name}", f"{name}: two lazy results evaluated in one graph raise {type(e).__name__}: {str(e)[:150]}", {"op": name})
         # a chunked time axis: eager result or an error
         if name not in ("croo",):
             d2 = da.chunk({"time": 5, "y": -1, "x": -1})
@@ -554,7 +609,7 @@ def finalize(agg, tier):
     for n in ALL_OPS:
         if c.get(f"configs_{n}", 0) == 0:
             out.append(f"operation {n} never compared eager vs lazy")
-    for k in ("layout_pairs", "permutation_pairs", "pixel_alone_pairs", "thread_runs", "tyx_vs_gufunc_pixels", "race_rounds", "first_call_under_threads", "time_chunked_attempts", "layer_omp", "layer_workqueue", "sweep_cube_float64", "sweep_cube_float32", "sweep_cube_int32"):
+    for k in ("layout_pairs", "permutation_pairs", "pixel_alone_pairs", "thread_runs", "tyx_vs_gufunc_pixels", "race_rounds", "first_call_under_threads", "time_chunked_attempts", "layer_omp", "layer_workqueue", "joint_graph_pairs", "sweep_cube_float64", "sweep_cube_float32", "sweep_cube_int32"):
         if c.get(k, 0) == 0:
             out.append(f"monitor/class {k} never observed")
     if c.get("race_rounds_with_2plus_compilers", 0) == 0:
